@@ -10,9 +10,18 @@
       `wf_single_driver`   a lint-clean design has at most one `always` block writing any variable
       `wf_proc_assigns_regs`, `wf_cont_assigns_nets`   the assignment-kind class, from the definition
       `wf_decidable`
-      `resolve_closed_partial`, `wf_total_partial_expr`   the part of `wf_total` that closes: name
-         resolution leaves no identifier behind, and an identifier-free expression over in-range scalar
-         signals (no selects, no division) evaluates without any error; the full `wf_total` is kept as a `def`.
+  * proved, **`wf_total` in full** (DESIGN.md 5.3): a design returned by `elaborate` never raises an
+    elaboration-class error (unresolved name / any `internal:` condition) in `init`, `cycle`, `poke`, a whole
+    `run`; evaluation-class errors (out-of-range select, `/ %` by zero, memory as vector, non-settling
+    logic) are excluded on purpose.  Pieces: `wf_expr_total` (every expression form), `wf_stmt_total`
+    (assignments to any left-hand side, if / case / begin-end), `wf_total_of_resolved` (continuous
+    assignments, settle, processes, commit), `elab_sigs_in_range` (`elaborate` — declarations, block locals,
+    `for` unrolling, both passes, instance flattening to any depth — returns a `Resolved` design).
+    Hypothesis: `Source.fromReader` (no `.sig` node in the parsed source; re-checked by the oracle).
+    The earlier `resolve_closed_partial` / `wf_total_partial_expr` (no error of *any* class on the
+    select-free, division-free fragment) are kept.
+  * proved, about the checker `Source.check`: `lint_sound_undeclared` (no `[undeclared]` finding for a module
+    ⇒ name resolution of its item-level expressions cannot fail with `[undeclared]`; bodies have no free name)
   * proved, about the shared-object header model `BMV.So` (tied to the emitted text on every run):
       `so_ports_agree`     for every kind and capability set: the top-level connection list has the
          length of the arch module's port list = the processor module's port list, position by position the
@@ -31,6 +40,7 @@ import BMV.Proofs.So
 import BMV.Proofs.VlogTotal
 import BMV.Proofs.VlogSafe3
 import BMV.Proofs.VlogElab3
+import BMV.Proofs.VlogUndecl
 namespace BMV.Props.C18
 open BMV.Vlog BMV.So
 
@@ -377,6 +387,51 @@ example : StateOk demoSigs demoState := by
   | 1, _ => exact ⟨#[9], 9, rfl, rfl⟩
   | n + 2, h => simp [demoSigs] at h
 example : ∃ e', resolveExpr ({} : Scope) (.bin .add (.num none 1) (.cat [.num (some 4) 2])) = .ok e' := ⟨_, rfl⟩
+
+/-! ## the checker's `[undeclared]` class -/
+
+/-- **lint_sound_undeclared** — the property's clause "every identifier that is read, written or used as a
+    clock is declared in scope", proved of the checker: if `Source.check` reports no `[undeclared]` for module
+    `m` (`m.undeclared = []`), then in every scope that binds at least the names the module declares
+    (`Module.scope`: nets, variables, parameters) name resolution of every expression the module holds at item
+    level — both sides of continuous assignments, clock / event expressions, port connections and parameter
+    overrides of instances — never fails with `elaborate`'s `[undeclared]` error; and every `always` / `initial`
+    body has no free identifier w.r.t. that scope extended by the local declarations of the enclosing named
+    blocks (`stmtFree … = []`). -/
+theorem lint_sound_undeclared (m : Module) (h : m.undeclared = []) (sc : Scope)
+    (hcover : ∀ n, n ∈ m.scope → sc.contains n = true) :
+    (∀ l r, Item.assign l r ∈ m.items → NoUndecl (resolveExpr sc l) ∧ NoUndecl (resolveExpr sc r)) ∧
+    (∀ star evs b, Item.always star evs b ∈ m.items →
+      (∀ ev, ev ∈ evs → NoUndecl (resolveExpr sc ev.2)) ∧ stmtFree m.scope b = []) ∧
+    (∀ b, Item.initial b ∈ m.items → stmtFree m.scope b = []) ∧
+    (∀ mn n ps cs, Item.inst mn n ps cs ∈ m.items →
+      ∀ e, e ∈ connExprs ps ++ connExprs cs → NoUndecl (resolveExpr sc e)) := by
+  refine ⟨?_, ?_, ?_, ?_⟩
+  · intro l r hit
+    have := free_nil (undeclared_item h hit)
+    exact ⟨resolveExpr_noUndecl sc l (fun n hn => hcover n (this n (by simp [hn]))),
+           resolveExpr_noUndecl sc r (fun n hn => hcover n (this n (by simp [hn])))⟩
+  · intro star evs b hit
+    have := undeclared_item h hit
+    simp only [List.append_eq_nil_iff] at this
+    refine ⟨fun ev hev => ?_, this.2⟩
+    have hf := free_nil this.1
+    exact resolveExpr_noUndecl sc ev.2 (fun n hn => hcover n (hf n (List.mem_flatMap.mpr ⟨ev, hev, hn⟩)))
+  · intro b hit
+    exact undeclared_item h hit
+  · intro mn n ps cs hit e he
+    have hf := free_nil (undeclared_item h hit)
+    refine resolveExpr_noUndecl sc e (fun x hx => hcover x (hf x ?_))
+    rcases List.mem_append.mp he with he | he
+    · exact List.mem_append_left _ (List.mem_flatMap.mpr ⟨e, he, hx⟩)
+    · exact List.mem_append_right _ (List.mem_flatMap.mpr ⟨e, he, hx⟩)
+
+
+/-- non-vacuity: `tinySrc`'s module has no undeclared identifier, and one that uses `clock` for `clk` has -/
+example : (tinySrc.modules.map Module.undeclared) = [[]] := by decide
+example : Module.undeclared ⟨"br", ["clk"], [.decl ⟨.input, .none, none, [⟨"clk", none, none⟩]⟩,
+    .decl ⟨.none, .reg, none, [⟨"done", none, none⟩]⟩,
+    .always false [(.pos, .id "clock")] (.assign false (.id "done") (.num (some 1) 0))]⟩ = ["clock"] := by decide
 
 /-! ## the shared-object header model (BMV.So) -/
 
